@@ -154,6 +154,39 @@ def slow(t: float) -> int:
 '''
 
 
+# results whose pickling runs instrumented code of the module under test, and results larger than a pipe buffer
+PICKLING_MODULE = '''
+class Boom(Exception):
+    def __init__(self, code):
+        super().__init__(code)
+        self.code = code
+
+    def __reduce__(self):
+        if self.code > 1:
+            return (Boom, (self.code,))
+        return (Boom, (0,))
+
+def fine(x: int) -> int:
+    if x > 2:
+        return x + 1
+    return x
+
+def explode(x: int) -> int:
+    if x > 0:
+        raise Boom(x)
+    return x
+
+def big_error(n: int) -> int:
+    if n > 10:
+        raise ValueError("x" * n)
+    return n
+
+def big_value(n: int) -> str:
+    if n > 10:
+        return "y" * n
+    return ""
+'''
+
 # module with a mutated version that is registered through ModuleProvider.add_mutated_version
 MUTANT_ORIGINAL = '''
 def scale(x: int) -> int:
@@ -208,7 +241,8 @@ def main() -> None:  # noqa: PLR0915
     base = Path(sc["dir"])
     base.mkdir(parents=True, exist_ok=True)
     name = "c31sut_" + sc["module"]
-    src = {"crash": CRASH_MODULE, "slow": SLOW_MODULE, "mutant": MUTANT_ORIGINAL}.get(sc["module"]) or MODULES[sc["module"]]
+    src = {"crash": CRASH_MODULE, "slow": SLOW_MODULE, "mutant": MUTANT_ORIGINAL,
+           "pickling": PICKLING_MODULE}.get(sc["module"]) or MODULES[sc["module"]]
     (base / f"{name}.py").write_text(src)
     os.environ["PYNGUIN_DANGER_AWARE"] = "1"
     import logging
@@ -262,6 +296,31 @@ def main() -> None:  # noqa: PLR0915
         for i, ln in enumerate(lines):
             t.add_statement(Statement(node=cst.parse_statement(ln), bound_variable=f"var_{i}"))
         return t
+
+    if sc["module"] == "pickling":
+        progs = [["var_0 = 1", "var_1 = fine(var_0)", "var_2 = explode(3)"],       # SUT __reduce__ runs while pickling
+                 ["var_0 = explode(1)"],
+                 ["var_0 = fine(5)", "var_1 = big_error(2000000)"],                  # 2 MB exception message
+                 ["var_0 = big_value(1500000)", "var_1 = fine(1)"]]                  # 1.5 MB value for the assertion observer
+        for p in progs:
+            t = tc(p)
+            for exr in (inproc, sub):
+                exr.add_remote_observer(ato.RemoteAssertionTraceObserver())
+            t0 = time.monotonic()
+            r_in = inproc.execute(t)
+            t1 = time.monotonic()
+            r_sub = sub.execute(t)
+            wall = [round(t1 - t0, 2), round(time.monotonic() - t1, 2)]
+            for exr in (inproc, sub):
+                exr.clear_remote_observers()
+            a, b = canon(r_in, sp), canon(r_sub, sp)
+            for c in (a, b):       # huge values: keep the comparison, not the megabytes
+                c["assertions"] = [[pos, [x if len(x) < 300 else f"{x[:80]}...len={len(x)}" for x in xs]]
+                                   for pos, xs in c["assertions"]]
+            out["cases"].append({"code": t.to_code()[:300], "size": t.size(), "n_assertions": 0, "wall": wall,
+                                 "pass1": {"inproc": a, "subproc": b}})
+        print("RESULT " + json.dumps(out), flush=True)
+        os._exit(0)
 
     if sc["module"] == "mutant":
         import types
